@@ -98,3 +98,19 @@ Example C10_example :
   (cm_names (m_cms (cleanup m)), map snd (m_tabs (cleanup m)), map u_nm (m_units (cleanup m)), m_rls (cleanup m), cleanup (cleanup m) = cleanup m)
   = ([s "cm"%string], [s "vt"%string], [s "u1"%string; s "u2"%string; s "u3"%string], [s "rl"%string], cleanup (cleanup m) = cleanup m).
 Proof. vm_compute. reflexivity. Qed.
+
+(* a second run changes nothing: the COMPU_METHOD / table / UNIT pass and the RECORD_LAYOUT pass are idempotent *)
+Theorem C10_compu_method_pass_is_idempotent : forall m, cleanup_compu_methods (after_module m) = cleanup_compu_methods m.
+Proof. exact compu_method_pass_is_idempotent. Qed.
+Print Assumptions C10_compu_method_pass_is_idempotent.
+Theorem C10_record_layout_pass_is_idempotent : forall m,
+  filter (fun r => mem r (m_rl_uses m)) (cleanup_record_layouts m) = cleanup_record_layouts m.
+Proof. exact record_layout_pass_is_idempotent. Qed.
+Print Assumptions C10_record_layout_pass_is_idempotent.
+
+(* FUNCTION: whatever an object or a group lists, or still refers to an existing object, is never removed *)
+Theorem C10_protected_functions_stay : forall used fs f, NoDup (map f_nm fs) -> In f fs -> func_protected used f = true ->
+  exists f', In f' (iterate (S (length fs)) (funcs_round used) fs) /\ f_nm f' = f_nm f /\
+             f_rc f' = f_rc f /\ f_dc f' = f_dc f /\ f_in f' = f_in f /\ f_loc f' = f_loc f /\ f_out f' = f_out f.
+Proof. exact protected_functions_stay. Qed.
+Print Assumptions C10_protected_functions_stay.
